@@ -11,14 +11,35 @@ Import ListNotations.
 
 Set Implicit Arguments.
 
+(* the operations on cells, bundled so that every function of the model takes
+   the same single parameter *)
+Record ops (T : Type) := {
+  op_t0 : T; op_t1 : T;
+  op_add : T -> T -> T; op_mul : T -> T -> T;
+  op_cos : T -> T; op_sin : T -> T; op_atan2 : T -> T -> T;     (* atan2 y x *)
+  op_sk_fwd : nat -> nat -> T -> T;                              (* id, column, cell *)
+  op_sk_inv : nat -> nat -> T -> T;
+  op_radial : nat -> list T -> list T -> T;                      (* id, [x;u] row, centre *)
+  op_kern : nat -> nat -> list T -> T;                           (* id, feature index, row *)
+  op_unwrap : list T -> list T;                                  (* np.unwrap on one column *)
+  op_inj : N -> T;                                               (* label -> cell *)
+  op_lab : T -> N                                                (* cell -> label *)
+}.
+
 Section Stage.
 Variable T : Type.
-Variables (t0 t1 : T) (tmul : T -> T -> T).
-Variables (tcos tsin : T -> T) (tatan2 : T -> T -> T).   (* atan2 y x *)
-Variables (sk_fwd sk_inv : nat -> nat -> T -> T).        (* id, column, cell *)
-Variable radial : nat -> list T -> list T -> T.          (* id, [x;u] row, centre *)
-Variable kern : nat -> nat -> list T -> T.               (* id, feature index, row *)
-Variable unwrap : list T -> list T.                      (* np.unwrap on one column *)
+Variable O : ops T.
+Notation t0 := (op_t0 O).
+Notation t1 := (op_t1 O).
+Notation tmul := (op_mul O).
+Notation tcos := (op_cos O).
+Notation tsin := (op_sin O).
+Notation tatan2 := (op_atan2 O).
+Notation sk_fwd := (op_sk_fwd O).
+Notation sk_inv := (op_sk_inv O).
+Notation radial := (op_radial O).
+Notation kern := (op_kern O).
+Notation unwrap := (op_unwrap O).
 
 Inductive leaf :=
 | LPoly (powers : list (list nat))        (* PolynomialFeatures.powers_ (data) *)
